@@ -10,11 +10,11 @@ shutil.copy(f"{src}/{x}.patch.diff", f"{dst}/patch.diff")
 shutil.copy(f"{src}/{x}.demo.py", f"{dst}/demo.py")
 notes = open(f"{src}/{x}.notes.md").read()
 meta = {
-    "property": pid,
+    "property": pid[:3],
     "origin": "independent sub-agent given only the property text and a scratch worktree",
     "needs_to_manifest": notes,
     "confirmed_by_me": "tools/seed_verify.sh: stable suite 538 passed with the patch; demo exits 1 with the patch and 0 on the clean tree (scratch worktree outside /repo and /verif)",
-    "checked_with": f"tools/seed_try.sh seeded/{pid}-{x}/patch.diff {pid} quick (git apply to /repo, run check, git checkout -- .)",
+    "checked_with": f"tools/seed_try.sh (or seed_try_wt.sh: scratch worktree + VF_REPO) seeded/{pid}-{x}/patch.diff {pid[:3]} quick",
     "detected_by_check": caught,
     "detection_note": note,
 }
